@@ -697,8 +697,10 @@ func afterAbandonedCall(c *runner.Ctx) {
 						continue
 					}
 					if panicked != reps {
-						c.MarkIncomplete()
-						c.Note("the panicking user function did not run in the abandoned call")
+						// the library kept the panic to itself: this case says nothing about an abandoned call (counted, not a
+						// reason to stop - whether such a call is complete is judged in panickingFunctions)
+						c.Count("abandoned_call_did_not_reach_the_caller", 1)
+						c.Outcome("panic-kept-by-the-library")
 						continue
 					}
 					if !eqs(canon(fmt.Sprint(before)), canon(fmt.Sprint(after))) {
